@@ -68,6 +68,8 @@ def _case(draw, tier):
         "h1": h1,
         "h2": h2,
         "proteins": draw(st.booleans()),
+        # the protein database may lack decoy entries (decoy groups then mirror the targets)
+        "fasta_decoys": draw(st.sampled_from([True, True, False])),
         "fmt": draw(st.sampled_from(["tsv", "tsv", "parquet"])),
     }
 
@@ -135,8 +137,9 @@ def _build_inputs(case, tmp):
     with open(fasta, "w") as f:
         for n, t, d in lines:
             f.write(f">{n}\n{t}\n")
-        for n, t, d in lines:
-            f.write(f">decoy_{n}\n{d}\n")
+        if case.get("fasta_decoys", True):
+            for n, t, d in lines:
+                f.write(f">decoy_{n}\n{d}\n")
     return path, fasta
 
 
@@ -203,6 +206,14 @@ def _run_once(case, tmp, workers, tag, models_in=None):
     for f in sorted(out.iterdir()):
         files[f.name] = _sha(f.read_bytes())
     res["files"] = files
+    if tag == "a" and prot is not None:
+        # the very same call again with the same Proteins object (an in-process repeat / the next file of a batch)
+        o3 = Path(tmp) / "same_proteins_again"
+        o3.mkdir()
+        mokapot.assign_confidence(psms, max_workers=workers, scores=[np.asarray(s, dtype=float).ravel() for s in scores], descs=list(descs),
+                                  eval_fdr=0.2, dest_dir=o3, prefixes=[None], decoys=True, proteins=prot, rng=case["brew_seed"] % 1000,
+                                  peps_algorithm="verif_stub")
+        res["same_proteins_again"] = {f.name: _sha(f.read_bytes()) for f in sorted(o3.iterdir())}
     if tag == "a":
         # a user-supplied lower-is-better score, analysed twice in this process with the very same arrays: same files twice
         import pandas as pd
@@ -283,6 +294,13 @@ def check(case):
     _diff(A, c1["workers"], f"max_workers {case['w1']} vs {case['w2']}")
     _diff(A, c2["A"], f"fresh interpreters with PYTHONHASHSEED {case['h1']} vs {case['h2']}")
     for c in (c1, c2):
+        again = c["A"].get("same_proteins_again")
+        if again is not None:
+            require(sorted(again) == sorted(c["A"]["files"]), "differs:file-set", f"second confidence assignment with the same Proteins object: {sorted(again)}")
+            for f in again:
+                require(again[f] == c["A"]["files"][f], "differs:repeat-same-proteins-object",
+                        f"confidence assignment repeated in one process with the same Proteins object: result file {f} is not byte-identical")
+    for c in (c1, c2):
         t1, t2 = c["A"]["user_score_twice"]
         for f in t1:
             require(t1[f] == t2.get(f), "differs:repeat-same-arrays",
@@ -297,6 +315,8 @@ def check(case):
             require(r["files"].get(f) == A["files"][f], "differs:model-order", f"models in order {p}: result file {f} differs")
         nperm += 1
     classes = [case["learner"], f"folds{case['folds']}", f"key{case['key']}", case["fmt"]]
+    if case["proteins"] and not case.get("fasta_decoys", True):
+        classes.append("target-only-database")
     if case["proteins"]:
         classes.append("protein-level")
     if c1.get("untrained"):
